@@ -4,13 +4,24 @@
 Require Import SF.Prelude SF.PySlice SF.BusSpec SF.Bus Gen.Gen_c17.
 Require Import Proofs.BusSpecFacts Proofs.BusSpecInv Proofs.BusRel Proofs.BusUpdate Proofs.BusRefine Proofs.BusLRU Proofs.BusStale Proofs.BusReader.
 
-(* REFINEMENT, every history.  A Bus opened on any store (duplicate-free labels, any contents, a recorded mtime) with
-   max_persist None or >= 1, driven through ANY history of the domain s_dom -- selections by label / list / slice /
-   Boolean / position through loc, iloc or [], items(), values, keys, status, drop, reindex, sort_index, continuing on
-   the derived Bus or not, file touched / rewritten / removed at any point, get / iter_element only where they cannot meet
-   a placeholder, sort_values only when max_persist is absent or >= the length of the Bus -- makes the implementation model answer EXACTLY what the
-   specification answers: the same Frames (those an eager load returns), the same labels in the same order, the same
-   loaded flags after every step, the same exceptions.  mode_ok: the store is read with one StoreConfig, or max_persist <> 1. *)
+(* The statements of bus.py the property hinges on have the REPAIRED shape now (constants regenerated from the source on
+   every run): config[label] on the max_persist == 1 path (71280f9), LRU position updated only after the read succeeded
+   (dee625c), get through _extract_loc (5b16856), iter_element / iter_element_items through values / items() (949c364),
+   sort_values deriving from the Bus's own Series (615b06f).  Reverting any of them flips a constant in Gen/Gen_c17.v; this
+   theorem and C17_bus_refines_spec (whose proof rests on it) then stop compiling. *)
+Theorem C17_repairs_in_place :
+  reader_cfg_by_label = true /\ lru_update_after_read = true /\ get_loads = true /\
+  iter_element_loads = true /\ iter_element_items_loads = true /\ sort_values_from_own_series = true.
+Proof. exact repairs_in_place. Qed.
+Print Assumptions C17_repairs_in_place.
+
+(* REFINEMENT, EVERY history, no domain restriction.  A Bus opened on any store (duplicate-free labels, any contents, any
+   per-label configuration, a recorded mtime) with max_persist None or >= 1, driven through ANY history -- selections by
+   label / list / slice / Boolean / position through loc, iloc or [], items(), values, keys, status, get, iter_element,
+   iter_element_items, drop, reindex, sort_index, sort_values (any max_persist), continuing on the derived Bus or not, the
+   file touched / rewritten / removed / put back at any point -- makes the implementation model (which follows the code
+   through the regenerated constants above) answer EXACTLY what the specification answers: the same Frames (those an eager
+   load returns), the same labels in the same order, the same loaded flags after every step, the same exceptions. *)
 Theorem C17_bus_refines_spec :
   forall (L F : Type) (leqb lleb : L -> L -> bool) (fkey : F -> Z),
   (forall x y : L, leqb x y = true <-> x = y) ->
@@ -18,8 +29,6 @@ Theorem C17_bus_refines_spec :
   NoDup (map fst (st_content L F st)) ->
   st_recorded L F st = Some r ->
   (forall k : Z, mp = Some k -> 1 <= k) ->
-  mode_ok L F leqb st mp ->
-  s_dom L F leqb lleb fkey st (s_open L F st mp) ops = true ->
   exists m0 : mbus L F,
     m_open L F st mp = Ok m0 /\
     m_run L F leqb lleb fkey st m0 ops = s_run L F leqb lleb fkey st (s_open L F st mp) ops.
